@@ -71,6 +71,7 @@ Definition check_case (c : case) : list N :=
                && stable_b msgs_in msgs_out) 3
       ++ flag (text_order_b (map (fun o => (fst (fst o), snd (fst o))) objs_in)
                && text_order_b msgs_in) 4
+      ++ flag (wf_b inp) 5
       (* the property on the implementation's own geometry *)
       ++ flag (Nat.eqb (length aids) (length (g_actors impl))
                && pairs_ok left_of (combine aids (g_actors impl))) 10
